@@ -354,6 +354,37 @@ def correlated_filter(f, target_pt):
     return lambda b, k: (b, k) not in blocked
 
 
+def set_flag_filter(f, pt):
+    """Edge filter for paths that start at pt: a local flag that was assigned a non-zero constant by a statement dominating pt and that no statement
+    reachable from pt assigns again is non-zero on every such path, so the zero edge of any plain test of it is infeasible."""
+    from . import rd
+    flags = {}
+    for st in f.stmts:
+        if not st or st['k'] != 'DeclRefExpr' or st.get('dk') != 'Var' or st.get('gl') or st['d'] in flags:
+            continue
+        defs = rd.local_defs(f, st['d'])
+        sets = [d for d in defs if d['kind'] in ('init', '=') and d['rhs'] is not None and d['point'] is not None and
+                ((f.s(d['rhs']) or {}).get('cv') not in (None, 0) or (f.s(f.strip_casts(d['rhs'])) or {}).get('v') is True)]
+        if not any(f.cfg.dominates(d['point'], pt) for d in sets):
+            flags[st['d']] = False
+            continue
+        # no later definition with another value
+        others = [d for d in defs if d not in sets and d['point'] is not None]
+        flags[st['d']] = not any(f.cfg.exists_path(pt, d['point']) for d in others)
+    good = {d for d, ok in flags.items() if ok}
+    if not good:
+        return None
+    blocked = set()
+    for blk in f.cfg.blocks.values():
+        if blk.cond is None or len(blk.succ) != 2:
+            continue
+        t = simple_test(f, blk.cond)
+        if t is None or t[0] not in good:
+            continue
+        blocked.add((blk.id, 1 if t[1] == 'nz' else 0))      # the edge on which the flag would be zero
+    return (lambda b, k: (b, k) not in blocked) if blocked else None
+
+
 def forward_correlated_filter(f, pt):
     """Edge filter for paths that *start* at pt: pt is guarded by simple tests of local variables (V, !V, V == 0 ...);
     the first later branch on the same variable — reached from pt without an intervening definition of V — must take
